@@ -1139,7 +1139,7 @@ class Interp:
                     elif t["msg"]["kind"] in ("NullPointerDereference", "MisalignedPointerDereference"):
                         ok = 1   # debug-build checks on pointers derived from references to live objects
                     else:
-                        st.tag("opaque-assert")
+                        st.tag("time-assert" if is_tainted(v) else "opaque-assert")
                         ok = self.fresh_bool(st, "assert")
                     pfail = Mx.AND(st.pc, Mx.NOT(ok))
                     pok = Mx.AND(st.pc, ok)
@@ -1220,13 +1220,15 @@ class Interp:
             return self._dispatch_outcomes(st, r_, dest, target, fr, t)
         # unknown callee: opaque result
         key = cal.get("full") or path or "<indirect>"
-        self.unknown_callees[key] = self.unknown_callees.get(key, 0) + 1
+        rt = self.types[t["dest"]["ty"]]
+        if rt["k"] != "never":
+            self.unknown_callees[key] = self.unknown_callees.get(key, 0) + 1
         if self.typed_unknown is not None:
             r_ = self.typed_unknown(self, st, fr, t, args, key)
             if r_ is not None:
                 return self._dispatch_outcomes(st, r_, dest, target, fr, t)
-        st.tag("unknown-callee")
-        rt = self.types[t["dest"]["ty"]]
+        if rt["k"] != "never":
+            st.tag("unknown-callee")      # (a call that never returns is followed exactly: the trace ends in a panic)
         if rt["k"] == "never":
             # a call that never returns (panic!, unreachable!, process::exit ...)
             self.emit(Outcome("panic", st, None, {"kind": "diverging-call", "op": key.split("::")[-1], "fn": fr.body["key"], "callee": key, "line": t["ln"],
